@@ -87,6 +87,16 @@ def check_row(type_, v, bs, t):
             return 'hex', 'hex()=%r' % (hx,)
         if len(m) != len(bs):
             return 'len', 'len()=%r expected %d' % (len(m), len(bs))
+        for sep in (':', '', ' - ', '\n'):
+            hs = m.hex(sep)
+            if hs != sep.join('%02X' % x for x in bs):
+                return 'hex-sep', 'hex(%r)=%r' % (sep, hs)
+            back = Message.from_hex(hs, time=t, sep=sep or None)
+            if list(back.bytes()) != bs or not (back == m):
+                return 'from_hex-sep', 'from_hex(%r, sep=%r) gave %r' % (hs, sep, back)
+        low = Message.from_hex(hx.lower().replace(' ', '\t'), time=t)
+        if not (low == m):
+            return 'from_hex-lowercase', 'from_hex(lower case, tabs) gave %r' % (low,)
     except Exception as e:
         return 'encode-exc', 'encoding raised %r' % (e,)
     exp = dict(attrs)
